@@ -14,6 +14,9 @@ PIECES = [
     "P0 = 1;", "P1 = RsV;", "P2 = PsV;", "P3 = 0xff;", "RdV = P0_NEW;", "RdV = NsN;", "RdV = HEX_REG_ALIAS_USR_NEW;", "RdV = HEX_REG_ALIAS_USR;", "R31 = RsV;",
     "for (i = 0; i < 2; i++) { RxV += i; }", "RdV = RsV ? 1 : 2;", "P0 &= PsV;", "RdV = (1 ? RsV : mem_load_u8(EA));", "if (RsV) { P1 = 1; } else { P2 = 1; }",
     "{ P3 = 1; }", "RdV = ({ P0 = 1; RsV; });", "cancel_slot;", "PeV = PtN;", "RdV = P1;", "EA = RsV + siV;",
+    # writes to register ALIASES, also ones whose name begins with P (they are not predicates), and reads of them
+    "HEX_REG_ALIAS_PC = RsV;", "HEX_REG_ALIAS_PKTCOUNT = RtV;", "HEX_REG_ALIAS_LR = RsV;", "HEX_REG_ALIAS_USR = RsV;", "RdV = HEX_REG_ALIAS_PC;",
+    "if (RsV) { HEX_REG_ALIAS_PC = RtV; }", "HEX_REG_ALIAS_SP = RsV + 8;",
 ]
 FAILING = ["{ RdV = ; }", "{ while (RsV) { RdV = 1; } }", "{ a = 1; }", "{ RdV = foo(RsV); }", "{ P0 = 1; RdV = 4 / 2; }", "{ P1 = 1; RdV = RsV, 2; }",
            "{ if (RsV) { P2 = mem_load_u8(EA); goto x; } }", "{ JUMP(RsV); P3 = bar; }"]
